@@ -199,6 +199,16 @@ func (q *PathQuery) inlineCommon(st *PathState, call ssa.CallInstruction, retKey
 				}
 			}
 		}
+		// a load through a pointer parameter bound to one of the caller's cells (`defer rollback(&err)`)
+		if u, ok := v.(*ssa.UnOp); ok && u.Op == token.MUL {
+			if pr, ok := u.X.(*ssa.Parameter); ok {
+				if al, ok := bind[pr].(*ssa.Alloc); ok {
+					if cv, ok := st.mem[al]; ok {
+						return cv
+					}
+				}
+			}
+		}
 		// a load of a variable captured by reference: what the caller's cell holds at the call
 		if u, ok := v.(*ssa.UnOp); ok && u.Op == token.MUL && direct {
 			if fv, ok := u.X.(*ssa.FreeVar); ok {
